@@ -30,7 +30,8 @@ REQUIRED_COUNTERS = {"asked_from_descendant": {"quick": 100, "thorough": 1000},
                      "self_extraction_at_call_depth_one": {"quick": 4, "thorough": 4},
                      "greenback_extractions": {"quick": 80, "thorough": 320},
                      "portal_with_portal_run_sync": {"quick": 5, "thorough": 20},
-                     "greenback_resumed_by_throw": {"quick": 5, "thorough": 7}}
+                     "greenback_resumed_by_throw": {"quick": 5, "thorough": 7},
+                     "suspended_after_being_seen_running_elsewhere": {"quick": 5, "thorough": 20}}
 SHARD_TIMEOUT = {"quick": 400, "thorough": 3600}
 
 
@@ -329,6 +330,62 @@ def worker(spec):
                               got=[f.f_code.co_name for f in got], interp=interp)
             fin2.set()
             th2.join(10)
+            # history: a greenlet that was looked at while it was *running* in another thread (an error, above) and is
+            # looked at again once it is merely suspended there - from its own thread and from this one.  A twin that
+            # nobody looked at while it ran is the reference for the look from this thread.
+            hold4 = {}
+            running4 = threading.Event()
+            looked4 = threading.Event()
+            susp4 = threading.Event()
+            fin4 = threading.Event()
+
+            def thread4():
+                def body(tag):
+                    if tag == "watched":
+                        running4.set()
+                        looked4.wait(10)
+                    greenlet.getcurrent().parent.switch()
+                for tag in ("watched", "twin"):
+                    hold4[tag] = greenlet.greenlet(body)
+                    hold4[tag].switch(tag)
+                    hold4[tag + "_walk"] = own_walk(hold4[tag])
+                    hold4[tag + "_own_thread"] = extract(hold4[tag])
+                susp4.set()
+                fin4.wait(10)
+
+            th4 = threading.Thread(target=thread4)
+            th4.start()
+            running4.wait(10)
+            s_running = extract(hold4["watched"])
+            looked4.set()
+            susp4.wait(10)
+            res.evaluations += 3
+            res.count("lifecycle_cases", 3)
+            res.count("suspended_after_being_seen_running_elsewhere")
+            res.nontrivial("seen-running-then-suspended", rep)
+            problems = []
+            if s_running.frames or not isinstance(s_running.error, RuntimeError):
+                problems.append("while running elsewhere: frames %r error %r" % ([f.funcname for f in s_running.frames],
+                                                                                s_running.error))
+            for tag in ("watched", "twin"):
+                own = hold4.get(tag + "_own_thread")
+                walk = hold4.get(tag + "_walk") or []
+                if own is None or own.error is not None or len(own.frames) != len(walk) \
+                        or any(a.pyframe is not b for a, b in zip(own.frames, walk)):
+                    problems.append("%s, asked from its own thread while suspended: frames %r error %r" % (
+                        tag, [f.funcname for f in own.frames] if own else None, own.error if own else None))
+            from_here = dict((tag, extract(hold4[tag])) for tag in ("watched", "twin"))
+            shape = dict((tag, ([f.pyframe.f_code for f in st_.frames], type(st_.error))) for tag, st_ in from_here.items())
+            if shape["watched"] != shape["twin"]:
+                problems.append("asked from another thread while suspended: the greenlet seen running earlier gives "
+                                "%d frames / %s, its never-watched twin %d frames / %s" % (
+                                    len(shape["watched"][0]), shape["watched"][1].__name__,
+                                    len(shape["twin"][0]), shape["twin"][1].__name__))
+            if problems:
+                res.violation(kind="greenlet seen running in another thread, later suspended", problems=problems[:4],
+                              interp=interp)
+            fin4.set()
+            th4.join(10)
         res.sample({"lifecycle": ["unstarted", "dead", "running in other thread", "suspended in other thread"]})
         return res
 
